@@ -26,6 +26,12 @@ The pinned tree does not satisfy the back-end half at full strength: Python deri
 upper-casing (`FooBar`, `Foobar` ↦ `FOOBAR`), Go applies the configured acronym conversion to variant
 identifiers (`UserId`, `UserID` ↦ `UserID` under `uppercase_acronyms = ["id"]`); two variants then
 share one member / constant.  `Known` describes exactly those inputs.
+
+Since the `fix:` commit 8f4a2d5 (`to_pascal_case`'s "all uppercase" test is `char::is_lowercase` of every
+character) the Kotlin class name and the Swift case name of a variant depend on the Unicode tables of Rust
+`std`; the back-end half therefore carries the hypothesis the parse half always had, that the tables are right
+about ASCII (`AsciiCorrect`; for Kotlin the tables travel in `Kotlin.Cfg.U`).  Without it a table that calls
+`o` a capital would make `FooBar` and `Foobar` one Kotlin class.
 -/
 namespace TsV.C02
 open TsV TsV.Str TsV.Syn TsV.Parser TsV.Serde TsV.Lang
@@ -55,7 +61,7 @@ def ParseOK (E : Ext) (T : List Str) (attrs : List Attr) (ident : Str) (gens : L
 def LangOK (L : TsV.Lang) (E : Ext) (acronyms : List Str) (e : RustEnum) : Prop :=
   match L with
   | .typescript => ∀ cfg st d st', TS.enumFacts cfg e st = .ok (d, st') → (TS.wire d).Correct e
-  | .kotlin => ∀ cfg ds, Kotlin.enumFacts cfg e = .ok ds → (Kt.wire ds).Correct e
+  | .kotlin => ∀ cfg ds, cfg.U.AsciiCorrect → Kotlin.enumFacts cfg e = .ok ds → (Kt.wire ds).Correct e
   | .swift => ∀ cfg st structs se st',
       Swift.enumFacts E.U cfg e st = .ok (structs, se, st') → (Sw.wire se).Correct e
   | .scala => ∀ cfg se, Scala.enumFacts cfg e = .ok se → (Sc.wire se).Correct e
@@ -66,7 +72,7 @@ def LangOK (L : TsV.Lang) (E : Ext) (acronyms : List Str) (e : RustEnum) : Prop 
 /-- the property at full strength -/
 def C02_full : Prop :=
   (∀ (E : Ext), E.U.AsciiCorrect → ∀ T attrs ident gens vs, InScopeSrc vs → ParseOK E T attrs ident gens vs) ∧
-  (∀ (E : Ext) (acronyms : List Str) (e : RustEnum), InScopeEnum e → ∀ L, LangOK L E acronyms e)
+  (∀ (E : Ext), E.U.AsciiCorrect → ∀ (acronyms : List Str) (e : RustEnum), InScopeEnum e → ∀ L, LangOK L E acronyms e)
 
 /-! ## the known classes -/
 
@@ -100,12 +106,12 @@ theorem C02_parse_inScope (E : Ext) (hU : E.U.AsciiCorrect) (T : List Str) (attr
 /-! ## back-end half -/
 
 /-- **outside the known classes every back end is correct on the wire** -/
-theorem C02_backend (L : TsV.Lang) (E : Ext) (acronyms : List Str) (e : RustEnum) (hs : InScopeEnum e)
+theorem C02_backend (L : TsV.Lang) (E : Ext) (hU : E.U.AsciiCorrect) (acronyms : List Str) (e : RustEnum) (hs : InScopeEnum e)
     (hk : ¬ Known L E acronyms e) : LangOK L E acronyms e := by
   cases L with
   | typescript => intro cfg st d st' h; exact TS.correct cfg e hs st st' d h
-  | kotlin => intro cfg ds h; exact Kt.correct cfg e hs ds h
-  | swift => intro cfg st structs se st' h; exact Sw.correct E.U cfg e hs st st' structs se h
+  | kotlin => intro cfg ds hcU h; exact Kt.correct cfg hcU e hs ds h
+  | swift => intro cfg st structs se st' h; exact Sw.correct E.U hU cfg e hs st st' structs se h
   | scala => intro cfg se h; exact Sc.correct cfg e hs se h
   | go =>
     intro cfg cs st d st' hac h
@@ -178,7 +184,7 @@ theorem C02_not_full : ¬ C02_full := by
   intro h
   obtain ⟨d, st', hd, _⟩ := pyWitness_output
   exact C02_known_fails_python exE pyWitness [] pyWitness_known {} {} st' d hd
-    (h.2 exE [] pyWitness pyWitness_inScope .python {} {} d st' hd)
+    (h.2 exE UnicodeOps.ascii_correct [] pyWitness pyWitness_inScope .python {} {} d st' hd)
 
 /-- `enum E { UserId, UserID }` under `uppercase_acronyms = ["id"]`: one Go constant `EUserID` -/
 def goWitness : RustEnum :=
@@ -197,10 +203,10 @@ theorem goWitness_output : ∃ d st', Go.enumFacts exE.U { uppercaseAcronyms := 
 whose input is not in its known class writes them correctly, one case per variant -/
 theorem C02_partial :
     (∀ (E : Ext), E.U.AsciiCorrect → ∀ T attrs ident gens vs, InScopeSrc vs → ParseOK E T attrs ident gens vs) ∧
-    (∀ (E : Ext) (acronyms : List Str) (e : RustEnum), InScopeEnum e →
+    (∀ (E : Ext), E.U.AsciiCorrect → ∀ (acronyms : List Str) (e : RustEnum), InScopeEnum e →
       ∀ L, ¬ Known L E acronyms e → LangOK L E acronyms e) :=
   ⟨fun E hU T attrs ident gens vs hs => C02_parse E hU T attrs ident gens vs hs,
-   fun E acronyms e hs L hk => C02_backend L E acronyms e hs hk⟩
+   fun E hU acronyms e hs L hk => C02_backend L E hU acronyms e hs hk⟩
 
 /-- **end to end**: whatever a back end's output says for an enum parsed from an in-scope source —
 if it is `Correct` for the parsed enum (`C02_backend`) — its cases are, in order, the non-skipped
